@@ -140,6 +140,7 @@ class World(object):
         cl.scheduler = types.SimpleNamespace(schedule=lambda delay, fn, *a, **k: w.timers.append(fn))
         cl.executor = types.SimpleNamespace(submit=lambda fn, *a, **k: w._run(fn, a, k))
         cl._prepare_all_queries = lambda h: None
+        cl.metadata = types.SimpleNamespace(get_host=lambda ep: None if w.removed else w.host)      # remove_host() precedes on_remove()
         cl._make_connection_factory = lambda h, *a, **k: w.factory
         self.cluster = cl
         self.sessions = cl.sessions
